@@ -506,6 +506,8 @@ struct Ctx {
     note_refs: Vec<OutputRef>,
     other_seed: Vec<u8>,
     genesis: ChainState,
+    /// nullifier of account 0's Orchard note received at BASE and spent at BASE + 2
+    orch_nf: [u8; 32],
 }
 
 type OpFn = Box<dyn Fn(&mut Connection, &Ctx, u64) -> Result<(), String>>;
@@ -1393,6 +1395,31 @@ fn read_apis() -> Vec<ReadApi> {
                 Ok(format!("{:?}", pm.mined_height(txid).map_err(|e| format!("{e:?}"))?))
             }),
         },
+        ReadApi {
+            name: "store::check_step_satisfiability",
+            run: Box::new(|c, x, start| {
+                let pm = PoolMigrations::for_account(x.world.net, clock(), c, x.world.accts[0].id).map_err(|e| format!("{e:?}"))?;
+                // a signed transfer spending account 0's Orchard note, whose spend the wallet saw
+                // mined at BASE + 2 (above the height `trunc` goes to)
+                let tx = MigrationTransaction::from_parts(
+                    MigrationTransferId::new(0),
+                    MigrationTxKind::Transfer { crossing: 0 },
+                    vec![0xAB],
+                    Vec::new(),
+                    BlockHeight::from_u32(0),
+                    BlockHeight::from_u32(0),
+                    None,
+                    TxId::from_bytes([0x77; 32]),
+                    MigrationTxState::Signed,
+                    None,
+                    None,
+                    vec![x.orch_nf],
+                    None,
+                );
+                start();
+                Ok(format!("{:?}", pm.check_step_satisfiability(&tx, zcash_pool_migration::satisfiability::ReorgSettleDepth::new(10)).map_err(|e| format!("{e:?}"))?))
+            }),
+        },
     ]
 }
 
@@ -1515,7 +1542,10 @@ fn build_ctx(seed: u64, variant: u64) -> Ctx {
     }]);
     w.push_block(&[]);
     let n0 = w.chain[0].txs[0].outs[0].nf;
-    w.push_block(&[TxSpec { spends: vec![n0], outs: vec![o(Some(0), Pool::Sapling, 5_000), o(Some(1), Pool::Sapling, 4_000)], foreign_spends: 0 }]);
+    // account 0's Orchard note is spent here too (the migration oracle judges it)
+    let n3 = w.chain[0].txs[0].outs[3].nf;
+    let orch_nf = w.notes[&n3].bytes;
+    w.push_block(&[TxSpec { spends: vec![n0, n3], outs: vec![o(Some(0), Pool::Sapling, 5_000), o(Some(1), Pool::Sapling, 4_000)], foreign_spends: 0 }]);
     let extra = 1 + r.below(3);
     for _ in 0..extra {
         w.push_block(&[]);
@@ -1566,7 +1596,7 @@ fn build_ctx(seed: u64, variant: u64) -> Ctx {
         }
     }
     let genesis = ChainState::empty(BlockHeight::from_u32(BASE - 1), BlockHash([0; 32]));
-    Ctx { world: w, tx_in, txs_out, taddr0, foreign_taddr, note_refs, other_seed, genesis }
+    Ctx { world: w, tx_in, txs_out, taddr0, foreign_taddr, note_refs, other_seed, genesis, orch_nf }
 }
 
 fn main() {
